@@ -20,6 +20,39 @@ CLAIMED = {
    technique="Coq proof (invariant by induction over histories + refinement) + model/implementation correspondence by vm_compute",
    design="5/C13"),
 }
+CLAIMED["C01"] = dict(
+   text="Machine-checked proof over an executable model of the carving core (the code's accumulator "
+        "enumeration of contiguous groupings, exact rational chi2 with Yates / Kruskal-Wallis H, bit-exact "
+        "binary64 frequencies/target rates/isclose, sort by measure, first viable wins, second stage for "
+        "missing values): the enumeration is exactly the set of order-contiguous groupings into 2..max_n_mod "
+        "groups, the kept grouping is viable and maximal over ALL of them, the missing-value placement is "
+        "maximal over all placements, and a feature is dropped iff a search has no viable candidate. Tied to "
+        "/repo on every run: real carver fits (base modalities through the real Discretizer, aggregates by "
+        "plain counting) are compared with the model's outcome and the property predicate C01_b is evaluated "
+        "in Coq on the implementation's own outcome by exhaustive re-enumeration.",
+   note="Trusted: Coq kernel + vm_compute; hand-written model (sampled correspondence); scipy chi2/kruskal "
+        "assumed monotone images of the exact values (1e-9 tie tolerance); continuous targets integer-valued; "
+        "pandas sort of <=16 rows stable. No axioms.",
+   technique="Coq proof (enumeration completeness by induction, argmax of first-viable in sorted list) + model/implementation correspondence by vm_compute",
+   design="5/C01")
+CLAIMED["C02"] = dict(
+   text="Proof on the same carving model that the kept grouping has at most max_n_mod groups and is viable on "
+        "the final units (frequency >= min_freq_mod in binary64 exactly as the code computes it, distinct "
+        "adjacent rates, identical rank order on dev); the run-time check evaluates the same boolean on the "
+        "implementation's outcome in Coq and, independently, checks the bounds on transform(X_train)/"
+        "transform(X_dev) outputs in Python.",
+   note="Same trusted base as C01; theorem carries dev_aligned (one dev aggregate per modality), guaranteed by "
+        "the harness and guarded by verdict code 3.",
+   technique="Coq proof (corollary of first-viable argmax + rows algebra) + correspondence + direct bounds check on transform outputs",
+   design="5/C02")
+CLAIMED["C12"] = dict(
+   text="Proof on the model that MulticlassCarver is one-vs-rest over the string-sorted classes minus a "
+        "minimal one, each column being the carving model's outcome on the class indicator with the same "
+        "configuration, kept iff that carving keeps the feature. Tied to /repo on every run: real "
+        "MulticlassCarver vs independently fitted real BinaryCarvers (column by column) vs the model.",
+   note="Same trusted base as C01 (the per-class fit is the C01 carving model).",
+   technique="Coq proof (structural, string order is a total order) + three-way correspondence (multiclass / binary / model)",
+   design="5/C12")
 NOT_YET = "not yet built in this round: model and correspondence for this property are still to be written (see DESIGN.md section 9 build order)"
 
 checks = []
